@@ -99,7 +99,7 @@ def lean_check(pid, tier, log):
     except Exception as e:  # noqa: BLE001
         problems.append("translator failed: %r" % (e,))
     # (2) build the property module, the bridge module (if any) and the driver
-    modules = [module] + (bridge if isinstance(bridge, list) else ([bridge] if bridge else []))
+    modules = [module] + list(obl.get("extra_modules", [])) + (bridge if isinstance(bridge, list) else ([bridge] if bridge else []))
     built = []
     for m in modules:
         rc, out = lake("build", m)
